@@ -293,6 +293,19 @@ def mon_c03(spec, rec):
                     key = "NelderMead/reported-solution-unconstrained/stored-vertex-pre-constraint"
                 out.append((key, "reported solution %r violates the constraints %s" % (best, dsl.con_sexp(term)), {"op_index": si}))
                 break
+            # "... and its reported energy is the energy of that constrained point": nothing but the constraints was ever
+            # (re)configured, the reported point satisfies them => energy = cost + penalty AT that point
+            if not reconfigured(spec) and not has_nan(rec) and not spec.get("pushing"):
+                want = raw_cost(spec, best) + penalty_at(spec.get("penalty"), best)
+                if not same_float(want, sn["bestEnergy"]) and not (want == sn["bestEnergy"]):
+                    key = "%s/reported-energy-not-of-the-constrained-point" % spec["solver"]
+                    if spec["solver"] == "NM" and K_harness(cfg, best) != best:
+                        # F3 again: the stored vertex is the pre-image; here it satisfies the user's constraints but the
+                        # coupled bounds constraint still moves it, and the energy is that of the moved point
+                        key = "NelderMead/reported-energy-not-of-the-constrained-point/stored-vertex-moved-by-coupled-bounds"
+                    out.append((key,
+                                "reported solution %r satisfies the constraints, but the reported energy %r is not cost + penalty at it (%r)" % (best, sn["bestEnergy"], want), {"op_index": si}))
+                    break
     return out
 
 
@@ -364,9 +377,10 @@ def mon_c04(spec, rec, solver_obj=None):
     if solver_obj is not None and have_mon:
         em = solver_obj._evalmon
         if len(em) == len(rec.cost_calls) - em_start:
+            ys = em._y if getattr(em, "k", None) is None else em.y          # `y` undoes the monitor's multiplier k
             for j, (x, y) in enumerate(rec.cost_calls[em_start:]):
                 ex = [float(v) for v in np.ravel(em._x[j])]
-                ey = em._y[j]
+                ey = ys[j]
                 ey = [float(v) for v in np.ravel(ey)] if np.ndim(ey) else float(ey)
                 if not same_vec(ex, x) or (ey != y and not (ey != ey and y != y)):
                     out.append(("%s/evalmon-content" % solver, "evaluation monitor record %d is (%r, %r) but call %d was (%r, %r)" % (j, ex, ey, j, x, y), {"call_index": j}))
